@@ -1,6 +1,6 @@
 (* C17 - metric grids place notes exactly on their pulses; Euclidean rhythms are even.
    Statements only; proofs in Proofs/MetricProofs.v.  Tatum units. *)
-From ML Require Import Model.Types Model.Metric Proofs.MetricProofs Proofs.MetricNoExpand.
+From ML Require Import Model.Types Model.Metric Proofs.MetricProofs Proofs.MetricNoExpand Proofs.MetricFromMelody.
 Open Scope Z_scope.
 
 (* applying a grid to a melody of m >= 1 notes: the result lasts exactly the number of tatums of the grid *)
@@ -27,6 +27,16 @@ Proof. exact apply_ne_total. Qed.
 Theorem C17_apply_no_expand_order : forall a m es j o k, apply_metric_ne a m = Some es ->
   nth_error es j = Some (Some o, k) -> o = Z.of_nat j mod Z.max m (zsum a) /\ o < m.
 Proof. exact apply_ne_sources. Qed.
+
+(* extracting the metric of the produced melody returns the grid: reading each produced entry back as FromMelody does (a 1 where it
+   carries a note, then zeros for the tatums it holds) gives the binary grid itself, whatever the melody *)
+Theorem C17_from_melody_roundtrip : forall a m es, binary a -> apply_metric a m = Some es -> from_melody (map flag_of es) = a.
+Proof. exact from_melody_of_applied. Qed.
+
+Example C17_ex_from_melody :
+  binary [0; 1; 0; 0; 1; 1; 0] /\
+  option_map (fun es => from_melody (map flag_of es)) (apply_metric [0; 1; 0; 0; 1; 1; 0] 2) = Some [0; 1; 0; 0; 1; 1; 0].
+Proof. split; [unfold binary; repeat (apply Forall_cons; [(left; reflexivity) || (right; reflexivity)|]); apply Forall_nil|vm_compute; reflexivity]. Qed.
 
 (* a Euclidean rhythm has exactly the requested number of steps and pulses, starts on the downbeat, is binary:
    for ALL 1 <= pulses <= steps *)
